@@ -1,13 +1,16 @@
 """C54 -- Sticky cookies are only sent to hosts and paths they belong to
 (mitmproxy/addons/stickycookie.py, mitmproxy/net/http/cookies.py)."""
+import email.utils
 import ipaddress
 import itertools
+import re
+import time
 
 from lib.coqterm import cbytes, cbool, copt, cN, clist, hx, unhx
 
 ID = "C54"
 QUICK_N = 3000
-THOROUGH_N = 40000
+THOROUGH_N = 15000
 SHARD = 250
 RULE = ("a case is a history of 2-9 response/request events driven through one real StickyCookie instance. 70%: "
         "responses from a host of a related-host family (base, sub, parent, look-alikes that contain the base as an "
@@ -21,8 +24,9 @@ TRUSTED = ["Coq 8.16.1 kernel (coqc), vm_compute for case evaluation",
            "harness/props/C54.py generator, observation of the addon (jar snapshots, Cookie header) and Corr/C54.v",
            "hand model of CPython 3.12 http.cookiejar.domain_match/is_HDN (incl. the regex IPV4_RE and str.rfind) and of "
            "cookies.format_cookie_header, tied by correspondence only",
-           "cookies.parse_set_cookie_header(s), CookieAttrs lookup, cookies.is_expired, flowfilter.match: not modelled; "
-           "their results are observed on the real code and fed to the model as inputs"]
+           "cookies.parse_set_cookie_header(s), CookieAttrs lookup, email.utils date parsing, flowfilter.match: not modelled; their results "
+           "are observed on the real code and fed to the model as inputs; cookies.is_expired is modelled for Max-Age (direct EX cases) and "
+           "judged by an RFC 6265 reference in the oracle"]
 ASSUMPTIONS = ["host names and Domain attributes are ASCII (str.lower modelled as ASCII lower); all other strings are "
                "arbitrary and compared as UTF-8 bytes",
                "request.host, request.port, request.path are str/int/str (HTTP flows)"]
@@ -35,10 +39,39 @@ PORTS = [80, 443, 8080]
 PATHS = ["/", "/foo", "/foo/", "/foo/bar", "/a/b", "", "foo", "/foo?x", "/FOO", "/f", "/foo/bar/"]
 NAMES = ["sid", "a", "b", "SID", "x-y", "k"]
 VALUES = ["1", "abc", "x y", 'q"\\', "", None, "é", "a=b", "v,w", "tok;en", "\x7f"]
-EXPIRY = [None, None, None, None, "Expires=Thu, 01-Jan-1970 00:00:00 GMT", "Expires=Wed, 01-Jan-2098 00:00:00 GMT",
-          "Max-Age=0", "Max-Age=-5", "Max-Age=100000", "Max-Age=abc", "Expires=garbage",
-          "Max-Age=0; Expires=Wed, 01-Jan-2098 00:00:00 GMT", None, None, None, None, None, "Max-Age=86400",
-          "Expires=Sat, 01-Jan-2000 00:00:00 GMT", "Expires", "Max-Age", "Expires=Wed, 13-Jan-99999 22:23:01 GMT"]
+EXP_PAST = ["Thu, 01-Jan-1970 00:00:00 GMT", "Sat, 01-Jan-2000 00:00:00 GMT", "Thu, 01 Jan 2015 10:00:00 GMT"]
+EXP_FUTURE = ["Wed, 01-Jan-2098 00:00:00 GMT", "Fri, 01 Jan 2094 00:00:00 GMT"]
+EXP_GARBAGE = ["garbage", "tomorrow", "12345"]
+MAX_AGES = ["0", "1", "5", "86400", "100000", "-1", "-0", "-5", "-99999", "00", "-007", "99999999999999999999",
+            "-99999999999999999999", "+5", "+0", "abc", "", "1.5", "-", "--1", "1e3", "0x0", "-1_0", "1_0", "_1", "5 6"]
+
+
+def expiry_attr(rng):
+    """independent of the implementation: the Max-Age / Expires grammar"""
+    r = rng.random()
+    if r < 0.40:
+        return None
+    parts = []
+    if r < 0.70 or r >= 0.88:
+        if rng.chance(0.04):
+            parts.append("Max-Age")
+        else:
+            parts.append("Max-Age=" + (rng.choice(MAX_AGES[:9]) if rng.chance(0.7) else rng.choice(MAX_AGES)))
+    if r >= 0.70:
+        k = rng.below(20)
+        if k == 0:
+            parts.append("Expires")
+        elif k == 1:
+            parts.append("Expires=Wed, 13-Jan-99999 22:23:01 GMT")
+        else:
+            parts.append("Expires=" + rng.choice(EXP_PAST if k < 9 else EXP_FUTURE if k < 16 else EXP_GARBAGE))
+    if len(parts) == 2 and rng.chance(0.5):
+        parts.reverse()
+    return "; ".join(parts)
+
+
+DELETIONS = ["Max-Age=0", "Max-Age=-1", "Max-Age=-99999", "Max-Age=-0", "Expires=" + EXP_PAST[0], "Expires=" + EXP_PAST[1],
+             "Max-Age=0; Expires=" + EXP_PAST[0]]
 
 
 def related_hosts(rng, base):
@@ -134,14 +167,14 @@ def gen_history(rng, adversarial):
                     path = "UNARY"
                 if dom == "UNARY" and not rng.chance(0.3):
                     dom = None
-                exp = rng.choice(EXPIRY if rng.chance(0.25) else EXPIRY[:-2])
+                exp = expiry_attr(rng)
                 name = rng.choice(NAMES[:3] if rng.chance(0.7) else NAMES)
                 # overwrite or delete an earlier cookie
                 if stored and rng.chance(0.35):
                     shost, sport, dom, path, name = rng.choice(stored)
                     if rng.chance(0.7):
                         host, port = cur = (shost, sport)
-                    exp = rng.choice(EXPIRY[4:8]) if rng.chance(0.6) else None
+                    exp = rng.choice(DELETIONS) if rng.chance(0.6) else None
                 val = rng.choice(VALUES) if rng.chance(0.35) else "v%d" % len(stored)
                 hs.append(set_cookie_header(name, val, dom, path, exp))
                 stored.append((host, port, dom, path, name))
@@ -245,13 +278,50 @@ def gen_dm_random(rng):
     return {"k": "dm", "a": h, "b": b}
 
 
+def gen_ex_systematic():
+    """every Max-Age of the grammar alone and combined with each kind of Expires, in both orders"""
+    out = []
+    exps = [None, "UNARY", EXP_PAST[0], EXP_PAST[2], EXP_FUTURE[0], EXP_GARBAGE[0]]
+    for ma in [None, "UNARY"] + MAX_AGES:
+        for e in exps:
+            attrs = []
+            if ma is not None:
+                attrs.append(["Max-Age", None if ma == "UNARY" else ma])
+            if e is not None:
+                attrs.append(["Expires", None if e == "UNARY" else e])
+            out.append({"k": "ex", "attrs": attrs})
+            if len(attrs) == 2:
+                out.append({"k": "ex", "attrs": attrs[::-1]})
+    return out
+
+
+def gen_ex_random(rng):
+    attrs = []
+    if rng.chance(0.8):
+        ma = rng.choice(MAX_AGES)
+        if rng.chance(0.4):
+            ma = mutate(rng, ma)
+        attrs.append([rng.choice(["Max-Age", "max-age", "MAX-AGE"]), None if rng.chance(0.05) else ma])
+    if rng.chance(0.4):
+        e = rng.choice(EXP_PAST + EXP_FUTURE + EXP_GARBAGE)
+        attrs.append([rng.choice(["Expires", "expires"]), mutate(rng, e) if rng.chance(0.2) else e])
+    if rng.chance(0.15):
+        attrs.append(["Max-Age", rng.choice(MAX_AGES)])
+    rng.shuffle(attrs)
+    if rng.chance(0.3):
+        attrs.append(["Path", "/"])
+    return {"k": "ex", "attrs": attrs}
+
+
 def gen(rng, n, tier):
-    out = gen_dm_systematic(tier) + (gen_systematic() if tier == "thorough" else [])
+    out = gen_ex_systematic() + gen_dm_systematic(tier) + (gen_systematic() if tier == "thorough" else [])
     for _ in range(n):
         r = rng.random()
         if r < 0.12:
             out.append(gen_dm_random(rng))
-        elif r < 0.16:
+        elif r < 0.20:
+            out.append(gen_ex_random(rng))
+        elif r < 0.24:
             t, cp = rng.choice(PM_PATHS), rng.choice(PM_PATHS)
             out.append({"k": "pm", "t": hx(mutate(rng, t).encode()), "cp": hx(mutate(rng, cp).encode())})
         else:
@@ -278,7 +348,32 @@ def _snapshot(sc):
     return [[[_b(d), p, _b(q)], [[_b(n), _b(v)] for n, v in c.items()]] for (d, p, q), c in sc.jar.items()]
 
 
+def _exp_branch(attrs):
+    """what the Expires branch of get_expiration_ts does, with the same library calls (email.utils is trusted)"""
+    if "expires" not in attrs:
+        return None
+    try:
+        e = email.utils.parsedate_tz(attrs["expires"])
+        if not e:
+            return [None]
+        return [bool(email.utils.mktime_tz(e) <= time.time())]
+    except Exception:
+        return "raise"
+
+
+def _is_expired(attrs):
+    try:
+        return bool(cookies.is_expired(attrs))
+    except Exception:
+        return "raise"
+
+
 def run_impl(case):
+    if case.get("k") == "ex":
+        attrs = cookies.CookieAttrs([(k, v) for k, v in case["attrs"]])
+        return {"fixed": FIXED, "r": _is_expired(attrs), "exp": _exp_branch(attrs),
+                "max_age": [attrs["max-age"]] if "max-age" in attrs else None,
+                "expires": [attrs["expires"]] if "expires" in attrs else None}
     if case.get("k") == "dm":
         return {"fixed": FIXED, "r": bool(stickycookie.domain_match(case["a"], case["b"]))}
     if case.get("k") == "pm":
@@ -295,11 +390,10 @@ def run_impl(case):
                 f.response.headers.set_all("set-cookie", [unhx(h) for h in ev["set_cookie"]])
                 parsed = []
                 for name, (value, attrs) in f.response.cookies.items(multi=True):
-                    try:
-                        e = bool(cookies.is_expired(attrs))
-                    except Exception:
-                        e = "raise"
+                    e = _is_expired(attrs)
                     parsed.append({"name": _b(name), "value": _b(value),
+                                   "max_age": [attrs["max-age"]] if "max-age" in attrs else None,
+                                   "expires": [attrs["expires"]] if "expires" in attrs else None,
                                    "dom": [_b(attrs["domain"])] if "domain" in attrs else None,
                                    "path": [_b(attrs["path"])] if "path" in attrs else None, "expired": e})
                 try:
@@ -354,6 +448,16 @@ def coq_case(case, obs):
     var = "Fixed" if obs["fixed"] else "Orig"
     if case.get("k") == "dm":
         return f"DM {var} {cbytes(case['a'].encode())} {cbytes(case['b'].encode())} {cbool(obs['r'])}"
+    if case.get("k") == "ex":
+        if obs["exp"] == "raise":
+            return None
+        ob = lambda x: "(@None bool)" if x is None else f"(Some {cbool(x)})"
+        exp = "(@None (option bool))" if obs["exp"] is None else f"(Some {ob(obs['exp'][0])})"
+        ma = obs["max_age"]
+        if ma is not None and ma[0] is not None and not ma[0].isascii():
+            return None
+        mas = "(@None (option str))" if ma is None else f"(Some {copt(ma[0], lambda x: cbytes(x.encode()), 'str')})"
+        return f"EX {exp} {mas} {ob(None if obs['r'] == 'raise' else obs['r'])}"
     if case.get("k") == "pm":
         return f"PM {var} {_s(case['t'])} {_s(case['cp'])} {cbool(obs['r'])}"
     evs = []
@@ -425,8 +529,39 @@ def _dom_family(host, dom):
     return "domain-other"
 
 
+def ref_expired(max_age, expires):
+    """RFC 6265 5.2.1, 5.2.2, 5.3: a Max-Age of the form -?DIGIT+ wins (<= 0: expire now); otherwise Expires decides if
+    its date is one the reference knows (table); an unparsable attribute is ignored.  None = undecided."""
+    if max_age is not None and max_age[0] is not None and re.fullmatch(r"-?[0-9]+", max_age[0], re.ASCII):
+        return int(max_age[0]) <= 0
+    if expires is None or expires[0] is None or expires[0] in EXP_GARBAGE:
+        return False
+    if expires[0] in EXP_PAST:
+        return True
+    if expires[0] in EXP_FUTURE:
+        return False
+    return None
+
+
+def expiry_violation(max_age, expires, observed, where):
+    ref = ref_expired(max_age, expires)
+    if ref is None or observed == "raise" or observed == ref:
+        return []
+    ma = max_age[0] if max_age else None
+    if ma is not None and re.fullmatch(r"-?[0-9]+", ma, re.ASCII) and expires is not None:
+        key = "expiry-expires-shadows-max-age"
+    elif ma is not None and not re.fullmatch(r"-?[0-9]+", ma, re.ASCII) and re.fullmatch(r"\s*[+-]?[0-9]+(_[0-9]+)*\s*", ma):
+        key = "expiry-max-age-int-syntax"
+    else:
+        key = "expiry-other"
+    return [{"key": key, "what": f"{where}: Max-Age={ma!r} Expires={(expires[0] if expires else None)!r}: is_expired "
+                                 f"says {observed}, RFC 6265 says {ref}"}]
+
+
 def oracle(case, obs):
     pre = "repaired-" if obs["fixed"] else ""
+    if case.get("k") == "ex":
+        return expiry_violation(obs["max_age"], obs["expires"], obs["r"], "is_expired")
     if case.get("k") == "dm":
         # only-if direction of RFC 6265 5.1.3 on the predicate itself
         if obs["r"] and not rfc_domain_match(_lower(case["a"]), rfc_cookie_domain(case["b"])):
@@ -448,6 +583,7 @@ def oracle(case, obs):
             after = {(d, p, q): dict((n, val) for n, val in items) for (d, p, q), items in o["jar"]}
             cs = []
             for c in o["parsed"]:
+                v += expiry_violation(c["max_age"], c["expires"], c["expired"], f"Set-Cookie {_u(c['name'])!r} from {host!r}")
                 dom = _b(host) if c["dom"] is None else c["dom"][0]
                 path = _b("/") if c["path"] is None else c["path"][0]
                 cs.append(((dom, port, path), c["name"], c["value"], c["expired"]))
@@ -539,7 +675,7 @@ def oracle(case, obs):
     # repaired predicates the same families are regressions and get their own keys
     seen, out = set(), []
     for x in v:
-        if obs["fixed"]:
+        if obs["fixed"] and not x["key"].startswith("expiry-"):
             x = {"key": "repaired-" + x["key"], "what": x["what"]}
         if x["key"] not in seen:
             seen.add(x["key"]); out.append(x)
@@ -547,7 +683,7 @@ def oracle(case, obs):
 
 
 def nontrivial(case, obs):
-    if case.get("k") in ("dm", "pm"):
+    if case.get("k") in ("dm", "pm", "ex"):
         return True
     jar_nonempty = False
     for ev, o in zip(case["events"], obs["events"]):
@@ -561,6 +697,8 @@ def nontrivial(case, obs):
 def classify(case, obs):
     if case.get("k") in ("dm", "pm"):
         return [case["k"], f"{case['k']}-{'accept' if obs['r'] else 'reject'}"]
+    if case.get("k") == "ex":
+        return ["ex", f"ex-{obs['r']}", "ex-ref-" + str(ref_expired(obs["max_age"], obs["expires"]))]
     tags = ["history", "fixed" if obs["fixed"] else "orig", "flt" if case["flt"] else "noflt"]
     jar = []
     for ev, o in zip(case["events"], obs["events"]):
